@@ -60,6 +60,7 @@ def history(rng, steps, nkeys):
 
 def run(ctx):
     ctx.assumptions += ["the from-scratch root (MerklizationSerializedState) is the reference; it is tied to the Gray Paper definition by C15",
+                        "the driver plays a caller that re-encodes a value of unchanged length into the buffer it handed to the previous computation (one backing array per key while the length stays the same), so a cache that retains caller slices is exposed",
                         "types.MaxKeyLevelCacheSize is lowered (2 for generated cases, 2..12 for histories) to put the cache under pressure"]
     vf.mc(ctx, "MC_StateCache", vf.cfg_text(constants={"Cap": "2"}, invariants=["CacheSound", "Bounded"], properties=["RootAgrees"],
                                             raw="CONSTANT Keys <- MCKeys\nCONSTANT Vals <- MCVals\nCONSTANT KeyLess <- IntLess"),
